@@ -68,7 +68,10 @@ def run(tier, replay=None):
     # per-fork invocations on real runs
     progs = shapes.catalogue() + fshapes.catalogue() + [gen.gen_program(s) for s in range(40 if tier == "quick" else 300)]
     sem, _ = psrun.semantics(progs)
-    specs = [psrun.make_spec(q, sem[q["name"]], {"kind": "random", "seed": vlib.seed() + i, "penv": 0.6}, name=q["name"])
+    # every third program with its stages in a file of their own below a sub-directory of MROPATH,
+    # included by the sibling spelling
+    specs = [psrun.make_spec(q, sem[q["name"]], {"kind": "random", "seed": vlib.seed() + i, "penv": 0.6}, name=q["name"],
+                             layout=("subdir" if i % 3 == 0 else ""))
              for i, q in enumerate(progs)]
     res = psrun.run_specs(specs, nproc=16)
     checked = 0
